@@ -13,7 +13,8 @@ func init() {
 		decided: "no error result of an interpreter function (or of the listed library calls) is dropped; on the non-nil edge of every such result no path returns a nil error or re-executes the call, except the designed sentinel consumers (table); " +
 			"assignment nodes are only built behind an allow-list target test; break/continue/return nodes only behind their context guard; the program is parsed completely before the evaluator is built; output is written unbuffered." +
 			" The assignment-target validation dominates every successful return of the assignment parselet; divisions are dominated by the zero test; the lexer produces EOF only at the real end of the text." +
-			" The regex of ~ / !~ is compiled at every evaluation and its error returned; Compare rejects containers whatever the other operand.",
+			" The regex of ~ / !~ is compiled at every evaluation and its error returned; Compare rejects containers whatever the other operand." +
+			" The call arm evaluates the node's whole argument list.",
 		notDecided: "that each kind of fault is detected in the first place (operator tables: C05/C09/C16).",
 	})
 }
